@@ -62,6 +62,7 @@ static int32 CompType = COMP_NONE;          /* What compression to use for the n
                                                 image */
 static comp_info CompInfo;                  /* Params for compression to perform */
 static char      Lastfile[DF_MAXFNLEN + 1]; /* last file opened */
+static uint16    Lastrigref = 0; /* ref of the RIG examined last; it need not be the ref of its image */
 static DFRrig    Readrig = {
     /* information about RIG being read */
     NULL,
@@ -1225,6 +1226,7 @@ DFR8Iopen(const char *filename, int acc_mode)
         Refset   = 0;  /* no ref to get set for this file */
         Newdata  = 0;
         Readrig  = Zrig; /* blank out read/write RIGs */
+        Lastrigref = 0;
         Writerig = Zrig;
         if (Newpalette != (-1))
             Newpalette = 1; /* need to write out palette */
@@ -1275,8 +1277,8 @@ DFR8Iriginfo(int32 file_id)
     HEclear();
     /* find next rig */
     if (foundRig) { /* either RIGs present or don't know */
-        if (!Refset && Readrig.image.ref)
-            aid = Hstartread(file_id, DFTAG_RIG, Readrig.image.ref);
+        if (!Refset && Readrig.image.ref) /* continue after the RIG read last */
+            aid = Hstartread(file_id, DFTAG_RIG, Lastrigref ? Lastrigref : Readrig.image.ref);
         do {
             if (Refset)
                 aid = Hstartread(file_id, DFTAG_RIG, Refset);
@@ -1301,6 +1303,7 @@ DFR8Iriginfo(int32 file_id)
             if (aid != FAIL) {
                 Hinquire(aid, (int32 *)NULL, (uint16 *)NULL, &ref, (int32 *)NULL, (int32 *)NULL,
                          (int32 *)NULL, (int16 *)NULL, (int16 *)NULL);
+                Lastrigref = ref;
                 if (DFR8getrig(file_id, ref, &Readrig) == FAIL) {
                     if (Refset || (HEvalue(1) != DFE_BADCALL)) {
                         Refset = 0;
